@@ -27,6 +27,7 @@ func checkC16(c *Ctx) {
 	c.checkAttachmentLinking()
 	c.checkForcedDownloadUnderMime()
 	c.checkAvatarLinkOnlyWithDesc()
+	c.checkAvatarLinkedAfterWrite()
 	c.checkHeadersBehindGates()
 }
 
